@@ -456,10 +456,11 @@ fn write_config(out: &std::path::Path, seed: u64, stream: &str) {
         .replace("stdout_level = \"debug\"", "stdout_level = \"error\"")
         .replace("event_per_zone = 1", &format!("event_per_zone = {}", match stream {
             "deep" => [1, 2, 1, 3][(seed % 4) as usize],
+            "window" => [2, 1, 3][(seed % 3) as usize],
             "rlte" => [1, 2, 3, 5, 8][(seed % 5) as usize],
             _ => [1, 2, 3, 5][(seed % 4) as usize],
         }))
-        .replace("fill_factor = 3", if stream == "deep" { "fill_factor = 400" } else { "fill_factor = 80" });
+        .replace("fill_factor = 3", match stream { "deep" => "fill_factor = 400", "window" => "fill_factor = 4", _ => "fill_factor = 80" });
     let p = base.join("cfg.toml");
     std::fs::write(&p, t).unwrap();
     unsafe { std::env::set_var("SNELDB_CONFIG", &p) };
@@ -767,6 +768,8 @@ fn main() {
         "e2e" => e2e::run(&a),
         "deep" => e2e::run_deep(&a),
         "rlte" => rlte::run(&a),
+        "accept" => accept::run(&a),
+        "window" => e2e::run_window(&a),
         other => {
             eprintln!("unknown stream {other}");
             std::process::exit(2);
@@ -1409,6 +1412,209 @@ mod e2e {
         std::process::exit(0);
     }
 
+    /// Verdict on one unordered LIMIT/OFFSET response: `min(n, max(0, matches - m))` distinct events,
+    /// judged against the rows written (ground truth) or against the engine's own de-duplicated
+    /// selection for the same WHERE (whether that selection is complete is C02/C03's subject).
+    fn judge_page(rows: &[(i64, usize)], wh: Option<i64>, n: usize, m: Option<usize>, resp: &Resp, base: &Resp) -> Result<(), String> {
+        let matches = rows.iter().filter(|(v, _)| wh.map_or(true, |w| *v >= w)).count();
+        let m0 = m.unwrap_or(0);
+        let want_truth = n.min(matches.saturating_sub(m0));
+        let mut base_ids: Vec<u64> = base.rows.iter().filter_map(|x| x.1).collect();
+        base_ids.sort();
+        base_ids.dedup();
+        let want_base = n.min(base_ids.len().saturating_sub(m0));
+        let mut ids: Vec<u64> = resp.rows.iter().filter_map(|x| x.1).collect();
+        let have_ids = ids.len() == resp.rows.len();
+        ids.sort();
+        let distinct = have_ids && ids.windows(2).all(|w| w[0] != w[1]);
+        let all_match = resp.rows.iter().all(|(cell, _)| cell.as_i64().is_some_and(|v| wh.map_or(true, |w| v >= w)));
+        let from_base = have_ids && ids.iter().all(|e| base_ids.binary_search(e).is_ok());
+        let ok_truth = resp.rows.len() == want_truth && all_match;
+        let ok_base = base.status == 200 && resp.rows.len() == want_base && from_base;
+        if resp.status == 200 && distinct && (ok_truth || ok_base) {
+            return Ok(());
+        }
+        let mut d = ids.clone();
+        d.dedup();
+        Err(format!("status {} returned {} rows ({} distinct ids, all match WHERE: {all_match}); {matches} events match, so min(n, max(0, matches - m)) = {want_truth} (engine's own de-duplicated selection: {} events -> {want_base})",
+            resp.status, resp.rows.len(), d.len(), base_ids.len()))
+    }
+
+    fn same_ids(a: &Resp, b: &Resp) -> bool {
+        let mut x: Vec<Option<u64>> = a.rows.iter().map(|r| r.1).collect();
+        let mut y: Vec<Option<u64>> = b.rows.iter().map(|r| r.1).collect();
+        x.sort();
+        y.sort();
+        a.status == 200 && b.status == 200 && x == y
+    }
+
+    /// Unordered LIMIT / OFFSET / WHERE while shards sit inside their flush window: the flush worker is
+    /// parked at `flush.published` (segment published, passive buffer not yet cleared), so the rows
+    /// of the flushed memtable reach the coordinator twice — from the passive buffer and from the
+    /// segment.  The response must still be `min(n, max(0, matches - m))` distinct matching events.
+    /// Only quiescent states are judged (every started flush is parked or finished, the selection is
+    /// the same before and after the query); a failure must reproduce to be reported.
+    pub fn run_window(a: &snel_harness::out::Args) {
+        let rt = tokio::runtime::Builder::new_multi_thread().worker_threads(8).enable_all().build().unwrap();
+        let mut s = Stream::create(&a.out, "window");
+        let base = a.out.join("c10-sys");
+        let sys = rt.block_on(async {
+            let reg = Arc::new(RwLock::new(SchemaRegistry::new().expect("registry")));
+            let n = snel_db::shared::config::CONFIG.engine.shard_count;
+            let sm = Arc::new(ShardManager::new(n, base.join("cols"), base.join("wal")).await);
+            Sys { sm, reg }
+        });
+        let cap = snel_db::shared::config::CONFIG.engine.event_per_zone * snel_db::shared::config::CONFIG.engine.fill_factor;
+        s.tally(&format!("cfg_memtable_capacity_{cap}"));
+        for i in 0..a.cases {
+            if a.only.is_some_and(|o| o != i) {
+                continue;
+            }
+            let mut r = Rng::for_case(a.seed, "window", i);
+            let ev = format!("w{}x{}", a.seed, i);
+            let n_rows = cap + 1 + r.below(3 * cap as u64) as usize;
+            let n_ctx = 1 + r.below(3) as usize;
+            let rows: Vec<(i64, usize)> = (0..n_rows).map(|_| (r.range(0, 12), r.below(n_ctx as u64) as usize)).collect();
+            let park = !r.chance(1, 6);
+            let queries: Vec<(Option<i64>, usize, Option<usize>)> = (0..10)
+                .map(|_| {
+                    let wh = if r.chance(1, 3) { Some(r.range(0, 12)) } else { None };
+                    let pick = |r: &mut Rng| match r.below(6) { 0 => 0, 1 => n_rows + r.below(8) as usize, 2 => n_rows, _ => r.below(n_rows as u64 + 1) as usize };
+                    let n = pick(&mut r);
+                    let m = if r.chance(1, 5) { None } else { Some(pick(&mut r)) };
+                    (wh, n, m)
+                })
+                .collect();
+            // per query: (text, verdict: None = state not quiescent, Some(Ok) / Some(Err(detail)), transient failures seen)
+            type Ans = (String, Option<Result<(), String>>, usize, usize);
+            let res: Result<(u64, Vec<Ans>, Vec<Ans>), String> = rt.block_on(async {
+                let d = sys.cmd(&format!("DEFINE {ev} FIELDS {{ v: \"int\" }}")).await?;
+                if !d.contains("200") && !d.to_lowercase().contains("ok") {
+                    return Err(format!("define failed: {d}"));
+                }
+                if park {
+                    snel_db::verif::arm_park("flush.published");
+                }
+                for (v, ctx) in &rows {
+                    let resp = sys.cmd(&format!("STORE {ev} FOR wc{ctx} PAYLOAD {{\"v\": {v}}}")).await?;
+                    if !resp.contains("200") {
+                        snel_db::verif::release("flush.published");
+                        return Err(format!("store rejected: {resp}"));
+                    }
+                }
+                if !park {
+                    let errs = sys.sm.wait_for_flush_completion().await;
+                    if !errs.is_empty() {
+                        return Err(format!("flush errors {errs:?}"));
+                    }
+                }
+                // quiescence: all rows visible, every flush that started has reached flush.published
+                let mut calm = 0;
+                for _ in 0..800 {
+                    let b = parse_rows(&sys.cmd(&format!("QUERY {ev}")).await?, "v");
+                    let mut ids: Vec<u64> = b.rows.iter().filter_map(|x| x.1).collect();
+                    ids.sort();
+                    ids.dedup();
+                    let started = snel_db::verif::hits("flush.registered");
+                    let published = snel_db::verif::hits("flush.published");
+                    if ids.len() >= rows.len() && started == published {
+                        calm += 1;
+                        if calm >= 4 {
+                            break;
+                        }
+                    } else {
+                        calm = 0;
+                    }
+                    tokio::time::sleep(std::time::Duration::from_millis(10)).await;
+                }
+                let parked = snel_db::verif::parked("flush.published");
+                let run_queries = |phase: &'static str| {
+                    let sys = &sys;
+                    let ev = &ev;
+                    let queries = &queries;
+                    let rows = &rows;
+                    async move {
+                        let mut out: Vec<Ans> = vec![];
+                        for (wh, n, m) in queries.iter() {
+                            let mut bq = format!("QUERY {ev}");
+                            if let Some(w) = wh { bq.push_str(&format!(" WHERE v >= {w}")); }
+                            let mut q = bq.clone();
+                            q.push_str(&format!(" LIMIT {n}"));
+                            if let Some(m) = m { q.push_str(&format!(" OFFSET {m}")); }
+                            let mut verdict: Option<Result<(), String>> = None;
+                            let mut failures = 0usize;
+                            let mut returned = 0usize;
+                            for _attempt in 0..3 {
+                                let base = parse_rows(&sys.cmd(&bq).await?, "v");
+                                let resp = parse_rows(&sys.cmd(&q).await?, "v");
+                                let base2 = parse_rows(&sys.cmd(&bq).await?, "v");
+                                returned = resp.rows.len();
+                                if !same_ids(&base, &base2) {
+                                    tokio::time::sleep(std::time::Duration::from_millis(20)).await;
+                                    continue; // a flush is moving rows between tiers: not judged
+                                }
+                                match judge_page(rows, *wh, *n, *m, &resp, &base) {
+                                    Ok(()) => { verdict = Some(Ok(())); break; }
+                                    Err(e) => {
+                                        failures += 1;
+                                        verdict = Some(Err(e));
+                                        tokio::time::sleep(std::time::Duration::from_millis(20)).await;
+                                    }
+                                }
+                            }
+                            // reported only if every judged attempt failed, at least twice
+                            if matches!(verdict, Some(Err(_))) && failures < 2 {
+                                verdict = None;
+                            }
+                            out.push((format!("[{phase}] {q}"), verdict, failures, returned));
+                        }
+                        Ok::<_, String>(out)
+                    }
+                };
+                let in_window = run_queries("flush window").await;
+                snel_db::verif::release("flush.published");
+                let errs = sys.sm.wait_for_flush_completion().await;
+                let in_window = in_window?;
+                if !errs.is_empty() {
+                    return Err(format!("flush errors {errs:?}"));
+                }
+                let after = run_queries("after flush").await?;
+                Ok((parked, in_window, after))
+            });
+            let (parked, in_window, after) = match res {
+                Ok(x) => x,
+                Err(_) => {
+                    snel_db::verif::release("flush.published");
+                    s.tally("session_skipped");
+                    s.case(&format!("window {i}"), "session-skipped", false);
+                    continue;
+                }
+            };
+            s.tally(if parked > 0 { "flush_parked_during_queries" } else { "no_flush_parked" });
+            s.tally_n("events", n_rows as u64);
+            let mut summary = vec![];
+            for (phase_i, answers) in [in_window, after].iter().enumerate() {
+                for ((_wh, _n, m), (q, verdict, failures, returned)) in queries.iter().zip(answers.iter()) {
+                    summary.push(format!("{returned}"));
+                    if phase_i == 0 && parked > 0 {
+                        s.tally(if m.is_some_and(|x| x > 0) { "q_window_with_offset" } else { "q_window_no_offset" });
+                    }
+                    match verdict {
+                        None => s.tally("q_not_quiescent_or_transient"),
+                        Some(Ok(())) => {
+                            if *failures > 0 { s.tally("q_passed_on_retry"); }
+                            s.oracle_ok();
+                        }
+                        Some(Err(e)) => s.oracle_fail(i, "-", &format!("{q}: {e}; flush parked at flush.published: {}; reproduced {failures}x", parked > 0)),
+                    }
+                }
+            }
+            s.case(&format!("window {i}"), &summary.join(" "), parked > 0);
+        }
+        s.finish();
+        std::process::exit(0);
+    }
+
     fn e2e_class(c: Col, keys: &[SV], _flushes: usize) -> &'static str {
         match first_departure(c, keys) {
             Some((x, y)) => pair_class(c, &keys[x], &keys[y]),
@@ -1619,5 +1825,128 @@ mod rlte {
         }
         s.finish();
         std::process::exit(0);
+    }
+}
+
+// ------------------------------------------------------------------ response writer alone
+mod accept {
+    use super::*;
+    use snel_db::command::handlers::query::QueryResponseWriter;
+    use snel_db::shared::response::JsonRenderer;
+
+    /// Drives the real `QueryResponseWriter` (JSON streaming) with generated batches in which event
+    /// ids repeat, and reads back which rows it emitted (column `idx` numbers the incoming rows).
+    async fn run_writer(ids: &[Option<u64>], batches: &[usize], limit: Option<u32>, offset: Option<u32>, id_first: bool) -> Result<(Vec<u64>, u64), String> {
+        let cols = if id_first { vec!["event_id", "idx"] } else { vec!["idx", "event_id"] };
+        let schema = Arc::new(
+            BatchSchema::new(cols.iter().map(|n| ColumnSpec { name: n.to_string(), logical_type: "Integer".into() }).collect()).map_err(|e| e.to_string())?,
+        );
+        let (tx, rx) = FlowChannel::bounded(batches.len().max(1) + 1, FlowMetrics::new());
+        let mut start = 0usize;
+        for len in batches {
+            let idc: Vec<SV> = ids[start..start + len].iter().enumerate().map(|(j, id)| match id {
+                Some(x) => SV::Int64(*x as i64),
+                None => if (start + j) % 2 == 0 { SV::Null } else { SV::Int64(-1 - (start + j) as i64) },
+            }).collect();
+            let ixc: Vec<SV> = (start..start + len).map(|j| SV::Int64(j as i64)).collect();
+            let columns = if id_first { vec![idc, ixc] } else { vec![ixc, idc] };
+            let batch = snel_db::verif::column_batch(Arc::clone(&schema), columns, *len).map_err(|e| e.to_string())?;
+            tx.send(Arc::new(batch)).await.map_err(|_| "send".to_string())?;
+            start += len;
+        }
+        drop(tx);
+        let stream = snel_db::verif::query_batch_stream(Arc::clone(&schema), rx);
+        let mut out: Vec<u8> = vec![];
+        QueryResponseWriter::new(&mut out, &JsonRenderer, Arc::clone(&schema), limit, offset)
+            .write(stream)
+            .await
+            .map_err(|e| e.to_string())?;
+        let text = String::from_utf8_lossy(&out).to_string();
+        let ix = if id_first { 1 } else { 0 };
+        let mut emitted = vec![];
+        let mut row_count = u64::MAX;
+        for line in text.lines() {
+            let Ok(v) = serde_json::from_str::<serde_json::Value>(line) else { continue };
+            match v.get("type").and_then(|t| t.as_str()) {
+                Some("batch") => {
+                    for r in v.get("rows").and_then(|r| r.as_array()).ok_or("rows")? {
+                        emitted.push(r.get(ix).and_then(|x| x.as_u64()).ok_or("idx")?);
+                    }
+                }
+                Some("row") => emitted.push(v.get("values").and_then(|x| x.get("idx")).and_then(|x| x.as_u64()).ok_or("idx")?),
+                Some("end") => row_count = v.get("row_count").and_then(|x| x.as_u64()).unwrap_or(u64::MAX),
+                _ => {}
+            }
+        }
+        Ok((emitted, row_count))
+    }
+
+    pub fn run(a: &snel_harness::out::Args) {
+        let rt = tokio::runtime::Builder::new_multi_thread().worker_threads(2).enable_all().build().unwrap();
+        let mut s = Stream::create(&a.out, "accept");
+        for i in 0..a.cases {
+            if a.only.is_some_and(|o| o != i) {
+                continue;
+            }
+            let mut r = Rng::for_case(a.seed, "accept", i);
+            let n_rows = match r.below(5) { 0 => r.below(3), 1 => 30 + r.below(40), _ => r.below(25) } as usize;
+            // ids from a small pool: the same event arrives several times (flush window), a few rows
+            // carry no readable id
+            let pool_max = match r.below(3) { 0 => 3, 1 => n_rows as u64 + 1, _ => (n_rows as u64) / 2 + 1 };
+            let pool = 1 + r.below(pool_max);
+            let base_id = if r.chance(1, 2) { 0 } else { 1u64 << 40 };
+            let shape = r.below(3);
+            let ids: Vec<Option<u64>> = (0..n_rows)
+                .map(|j| {
+                    if r.chance(1, 15) { None }
+                    else if shape == 0 && j >= n_rows / 2 { Some(base_id + (j - n_rows / 2) as u64 % pool) } // second half repeats the first
+                    else if shape == 0 { Some(base_id + j as u64 % pool) }
+                    else { Some(base_id + r.below(pool)) }
+                })
+                .collect();
+            let pick = |r: &mut Rng| match r.below(6) { 0 => 0, 1 => n_rows as u32 + r.below(4) as u32, _ => r.below(n_rows as u64 + 1) as u32 };
+            let limit = if r.chance(1, 6) { None } else { Some(pick(&mut r)) };
+            let offset = if r.chance(1, 4) { None } else { Some(pick(&mut r)) };
+            let mut batches = vec![];
+            let mut left = n_rows;
+            while left > 0 {
+                let b = if r.chance(1, 8) { 0 } else { (1 + r.below(9) as usize).min(left) };
+                batches.push(b);
+                left -= b;
+            }
+            if r.chance(1, 5) { batches.push(0); }
+            let id_first = r.chance(1, 2);
+            let o = |x: Option<u32>| x.map(|v| v.to_string()).unwrap_or("-".into());
+            let op = format!("accept {} {} {} {}", o(limit), o(offset), n_rows, ids.iter().map(|x| x.map(|v| v.to_string()).unwrap_or("-".into())).collect::<Vec<_>>().join(" "));
+            let op = op.trim_end().to_string();
+            let res = rt.block_on(run_writer(&ids, &batches, limit, offset, id_first));
+            let (emitted, row_count) = match res {
+                Ok(x) => x,
+                Err(e) => {
+                    s.case(&op, &format!("error {e}"), false);
+                    s.oracle_fail(i, "-", &format!("response writer failed: {e}"));
+                    continue;
+                }
+            };
+            let imp = if emitted.is_empty() { "-".to_string() } else { emitted.iter().map(|x| x.to_string()).collect::<Vec<_>>().join(" ") };
+            let dups = { let mut d: Vec<u64> = ids.iter().flatten().cloned().collect(); let n0 = d.len(); d.sort(); d.dedup(); n0 - d.len() };
+            s.tally(match (limit.is_some(), offset.is_some()) { (true, true) => "limit_offset", (true, false) => "limit", (false, true) => "offset_only", _ => "neither" });
+            s.tally(if dups > 0 { "has_duplicate_ids" } else { "no_duplicate_ids" });
+            if ids.iter().any(|x| x.is_none()) { s.tally("has_rows_without_id"); }
+            s.tally_n("rows", n_rows as u64);
+            s.tally_n("duplicate_rows", dups as u64);
+            s.case(&op, &imp, !emitted.is_empty());
+            // oracle: dedupe by id (first arrival wins), then OFFSET, then LIMIT
+            let mut seen = std::collections::HashSet::new();
+            let dedup: Vec<u64> = ids.iter().enumerate().filter(|(_, id)| id.map_or(true, |x| seen.insert(x))).map(|(j, _)| j as u64).collect();
+            let expect: Vec<u64> = dedup.iter().skip(offset.unwrap_or(0) as usize).take(limit.map_or(usize::MAX, |l| l as usize)).cloned().collect();
+            if emitted == expect && row_count == expect.len() as u64 {
+                s.oracle_ok();
+            } else {
+                s.oracle_fail(i, "-", &format!("response writer, LIMIT {} OFFSET {} over incoming event ids {:?}: emitted rows {:?} (end frame row_count {row_count}), but dedupe-by-id then OFFSET then LIMIT gives rows {:?} ({} distinct ids arrived)",
+                    o(limit), o(offset), ids, emitted, expect, seen.len()));
+            }
+        }
+        s.finish();
     }
 }
